@@ -532,6 +532,8 @@ class Data(object):
                             temp = input.threshold_scores[:, :, :, I[0]]
 
                     elif isinstance(field, verif.field.Quantile):
+                        if not (0 <= field.quantile <= 1):
+                            verif.util.error("Quantile level %g is not between 0 and 1 (quantile metrics need '-b above' or a 'within' type)" % field.quantile)
                         I = np.where(np.isclose(input.quantiles, field.quantile))[0]
                         if len(I) == 0 or self.dim_agg_length is not None:
                             if input.ensemble is None or input.ensemble.shape[-1] == 0:
